@@ -217,4 +217,7 @@ def mcwf(args: tuple[int, MCWFContext]) -> NDArray[np.float64]:
     if sim_params.get_state:
         ctx.output_state = psi
 
+    if not sim_params.sample_timesteps:
+        # only the value at the total time is reported (one column, as the TJM back-ends do)
+        return results[:, -1:]
     return results
